@@ -187,6 +187,9 @@ func mapDepth(dt expr.DataType, depth int, seen ...map[string]struct{}) int {
 			return depth
 		}
 		s[key] = struct{}{}
+		// the set only guards against recursive types: a type reached a
+		// second time through a sibling attribute has the same depth
+		defer delete(s, key)
 		var level int
 		for _, nat := range *mo {
 			// if object type has attributes of type map then find out the attribute that has
